@@ -5,6 +5,7 @@ import (
 	"sort"
 	"strings"
 	"testing"
+	"testing/fstest"
 
 	"github.com/uhn/ggql/pkg/ggql"
 	"pgregory.net/rapid"
@@ -162,6 +163,40 @@ func checkC16(c *c16Case) (ds []hx.Discrepancy, info map[string]bool) {
 		}
 		all = append(all, o)
 	}
+	// the files of a directory read with ParseFS are one load, whatever the order they are taken in:
+	// the documents of the split arrangement as files (split at will: one load needs no order)
+	if len(c.Arrangements) > 2 && len(c.Arrangements[2].Docs) > 1 {
+		fsys := fstest.MapFS{"notes.txt": {Data: []byte("type")}}
+		for i, txt := range c.Arrangements[2].Texts() {
+			fsys[fmt.Sprintf("part%d.graphql", i)] = &fstest.MapFile{Data: []byte(txt)}
+		}
+		ggql.Sort = true
+		ggql.Relaxed = false
+		fr := ggql.NewRoot(newRootObj())
+		var ferr error
+		var fpan interface{}
+		func() {
+			defer func() {
+				if r := recover(); r != nil {
+					fpan = r
+				}
+			}()
+			ferr = fr.ParseFS(fsys, "*.graphql")
+		}()
+		if fpan != nil {
+			add("panic", "", "ParseFS panicked: %v\n%s", fpan, show(c.Arrangements[2]))
+			return
+		}
+		info["files-of-one-directory(ParseFS)"] = true
+		if (ferr == nil) != all[0].accepted {
+			add("accept-reject-differs", "", "arrangement 0 accepted=%v (%v) but the same definitions as %d files read with ParseFS accepted=%v (%v)\n=== arrangement 0\n%s\n=== files\n%s",
+				all[0].accepted, all[0].err, len(c.Arrangements[2].Docs), ferr == nil, ferr, show(c.Arrangements[0]), show(c.Arrangements[2]))
+		} else if ferr == nil {
+			if d, _, p := observe(fr); p == nil && d != all[0].desc {
+				add("schema-differs", "", "the files read with ParseFS define a different schema: %s\n=== arrangement 0\n%s\n=== files\n%s", firstDiff(all[0].desc, d), show(c.Arrangements[0]), show(c.Arrangements[2]))
+			}
+		}
+	}
 	ref := all[0]
 	if c.IllFormed == "" && !ref.accepted {
 		add("reference-rejected", "", "the plain single-document arrangement of a well-formed set is rejected: %v\n%s", ref.err, show(c.Arrangements[0]))
@@ -226,6 +261,9 @@ func TestC16(t *testing.T) {
 		}
 		if info["requests-served-between-loads"] {
 			cl = append(cl, "requests-served-between-loads")
+		}
+		if info["files-of-one-directory(ParseFS)"] {
+			cl = append(cl, "files-of-one-directory(ParseFS)")
 		}
 		if c.DupScalar != "" {
 			cl = append(cl, "scalar-declared-twice")
